@@ -99,7 +99,7 @@ func oracleCSV(g *Gen, t string, res string) (viol []string) {
 		return []string{"csv render panicked: " + lastPanic}
 	}
 	if tb.NColumns() == 0 {
-		if class != "err:no-columns" {
+		if !strings.HasPrefix(class, "err") {
 			viol = append(viol, "zero-column table not refused: "+class)
 		}
 		return
